@@ -59,26 +59,37 @@ def main(tier, replay):
                 notes.append(l.strip()[:300])
     vlib.standard_coverage(chk, stats,
         "real ProjMatrixByBinUsingRayTracing / ProjMatrixByBinUsingInterpolation, ForwardProjectorByBinUsingProjMatrixByBin, "
-        "BackProjectorByBinUsingProjMatrixByBin, ProjectorByBinPairUsingProjMatrixByBin, ForwardProjectorByBinUsingRayTracing on "
-        "ProjDataInMemory for generated geometries (cylindrical 8-16 detectors x 2-3 rings, span 1/3, view mashing, TOF 5 bins / "
-        "mashed; BlocksOnCylindrical 12/16 detectors, TOF and non-TOF; images 5-9 (blocks 15/17) voxels across), 1-3 tangential LORs, "
-        "random symmetry flags, cylindrical/square FOV, cache on (per-bin branch) and off (explicit-symmetries branch). "
-        "Correspondence: the rows of a separate matrix object with the same settings (hex floats), the symmetry tables and random "
-        "small-integer images/data are sent to the Lean model, which recomputes exactly in Rat every forward projection "
-        "(whole / sampled (subset_num,num_subsets,zero) / chained subsets without zeroing / related viewgrams over random axial+tangential "
-        "sub-ranges, frame included) and every state of the back projector (set_up clone, start_accumulating, back_project of subsets and "
-        "sub-ranges, get_output, back_project(image,..)); accepted iff |impl - exact| <= 4(n+1)2^-24 M with M = sum|terms|, n = number of "
-        "terms (both computed by the model). Oracle on the implementation alone: projection = matrix product, <Ax,y>=<x,A'y> within "
-        "4(L+C+2)2^-24 sum|x||A||y| for the whole data, every (subset_num,num_subsets), every related-viewgram group x TOF bin and random "
-        "sub-ranges; subset/sub-range projection = restriction of the whole (bitwise); frame (untouched / zeroed, bitwise); subsets one "
-        "after the other = at once; back projection accumulates and start_accumulating resets; linearity; rejected subset arguments; "
-        "on-the-fly ray tracing vs matrix with 1e-4 of max(viewgram max, 0.05 data max). distinct = distinct op lines.",
+        "BackProjectorByBinUsingProjMatrixByBin, ProjectorByBinPairUsingProjMatrixByBin, ForwardProjectorByBinUsingRayTracing, "
+        "ProjMatrixElemsForOneBin, RelatedViewgrams on ProjDataInMemory, for generated geometries: cylindrical 8-16 detectors x 2-3 rings, "
+        "span 1/3, view mashing, arc-corrected or not, TOF (5 bins or mashed to 1), BlocksOnCylindrical 12/16 detectors (TOF and non-TOF); "
+        "images 5-9 voxels across (blocks 15/17) covering 50-100% of the field of view, 2R-1 / 2R-3 / 2R+1 planes (rows then contain planes "
+        "outside the image: z guard); 1-3 tangential LORs, random symmetry flags, cylindrical/square FOV, detector-boundary option; cache on "
+        "(per-bin branch) and off (explicit-symmetries branch). "
+        "CORRESPONDENCE: the rows of a separate matrix object with the same settings (hex floats), the symmetry tables "
+        "(is_basic / related view-segments / find_basic_bin+get_related_bins_factorised) and random small-integer images and data are sent "
+        "to the Lean model, which recomputes exactly in Rat: forward projection of the whole data, sampled (subset_num,num_subsets,zero), "
+        "chained subsets without zeroing, rejected subset arguments, related viewgrams over the full range / an axial sub-range / an "
+        "axial+tangential sub-range (values and frame inside the viewgrams), every state of the back projector (set_up clone, "
+        "start_accumulating_in_new_target, back_project of subsets and sub-ranges, get_output, back_project(image,..)), and "
+        "ProjMatrixElemsForOneBin::forward_project/back_project called directly on random rows (planes outside the image, bins that come in "
+        "with a value, data == 0). A float answer f is accepted iff |f - exact| <= 4(n+1)2^-24 M, M = sum|terms| and n = number of terms both "
+        "computed by the model (same definitions run on absolute values / on 0-1 patterns). "
+        "ORACLE on the implementation alone: projection = matrix product (both directions); <Ax,y>=<x,A'y> within "
+        "4(L+C+2)2^-24 sum|x||A||y| (L longest row, C most contributions to a voxel) for the whole data, EVERY (subset_num,num_subsets) up to "
+        "the number of views, every related-viewgram group x TOF bin, random sub-ranges; subset / sub-range projection = restriction of "
+        "the whole (bitwise); frame (untouched / zeroed, bitwise); subsets one after the other = at once (forward bitwise, back within the "
+        "bound); sums over subsets / over groups = whole; accumulation and reset of the back projector; linearity A(2x+x')=2Ax+Ax', "
+        "A'(2y+y')=2A'y+A'y', also through RelatedViewgrams arithmetic; row level: merge = sum, scaling, exact adjointness; "
+        "on-the-fly ray tracing vs matrix (1 LOR, same settings) on whole data, subsets and related viewgrams over sub-ranges with "
+        "tolerance 1e-4 max(viewgram max, 0.05 max(A|x|)), bins whose LOR end point lies within 2e-3 voxel of a voxel boundary not "
+        "compared (count in harness_counts). distinct = distinct op lines.",
         extra=dict(harness_counts=counts, harness_notes=notes[:8]))
     chk.assumptions += [
         "float rounding is bounded, not modelled: comparisons use the forward error bound 4(n+1)2^-24 sum|terms|",
         "matrix rows, symmetry tables and the storage layouts are data for the model (rows are C03's subject); "
         "the on-the-fly Siddon projector is compared on the implementation only (not modelled)",
-        "on-the-fly comparison only where it sets up: cylindrical, non-TOF, even number of views, no view mashing",
+        "on-the-fly comparison only where it sets up: cylindrical, non-TOF, even number of views, no view mashing (others counted as skipped)",
+        "rows computed with symmetries vs without symmetries are only counted (C03's subject; boundary cases differ legitimately)",
         "OpenMP off, no pre/post data processors",
     ]
     if audit:
